@@ -1,5 +1,5 @@
 #!/venv/bin/python
-"""tools/seed_verify.py <Cxx> <dir-with-patch.diff,demo.py,meta.json> <name> [--no-check] [--props C01,C02]
+"""tools/seed_verify.py <Cxx> <dir-with-patch.diff,demo.py,meta.json> <name> [--no-check] [--props C01,C02] [--reuse-tests]
 
 Confirms a seeded breaking change independently (scratch worktree of /repo HEAD outside /repo and /verif), then runs the
 registered check(s) against it and records the outcome in /verif/seeded/<name>/.  The worktree is removed afterwards.
@@ -46,9 +46,16 @@ def main():
             rc1, out1 = sh(["/venv/bin/python", str(demo)], cwd="/tmp", env=env, timeout=600)
             res["demo_on_changed"] = {"rc": rc1, "tail": out1[-600:]}
             t0 = time.time()
-            rct, outt = sh(["/venv/bin/python", "-m", "pytest", "-q", "-p", "no:cacheprovider", "-x", "--timeout=900"], cwd=str(wt), env=env)
-            m = re.search(r"(\d+) passed", outt)
-            res["tests"] = {"rc": rct, "passed": int(m.group(1)) if m else 0, "tail": outt[-300:], "wall_s": round(time.time() - t0)}
+            prev = V / "seeded" / name / "meta.json"
+            if "--reuse-tests" in sys.argv and prev.exists() and json.loads(prev.read_text()).get("verification", {}).get("tests", {}).get("passed", 0) >= 377 \
+                    and json.loads(prev.read_text())["verification"].get("repo_head") == res["repo_head"]:
+                # the suite was already run with this patch on this very /repo HEAD (recorded in seeded/<name>/meta.json)
+                res["tests"] = dict(json.loads(prev.read_text())["verification"]["tests"], reused=True)
+                rct = res["tests"]["rc"]
+            else:
+                rct, outt = sh(["/venv/bin/python", "-m", "pytest", "-q", "-p", "no:cacheprovider", "-x", "--timeout=900"], cwd=str(wt), env=env)
+                m = re.search(r"(\d+) passed", outt)
+                res["tests"] = {"rc": rct, "passed": int(m.group(1)) if m else 0, "tail": outt[-300:], "wall_s": round(time.time() - t0)}
             res["confirmed"] = bool(rc0 == 0 and rc1 != 0 and rct == 0 and res["tests"]["passed"] >= 377)
             if not no_check:
                 res["checks"] = {}
